@@ -219,6 +219,7 @@ class Scheduler:
                 break
             k = len(self.decisions)
             choice = None
+            bounded = False         # a pre-emption for a fixed number of decisions: afterwards the pre-empted thread goes on
             while pos < len(self.schedule) and self.schedule[pos][0] < k:
                 pos += 1
             if pos < len(self.schedule) and self.schedule[pos][0] == k:
@@ -226,6 +227,7 @@ class Scheduler:
                 pos += 1
                 if want in runnable:
                     choice = want
+                    bounded = n is not None
                     sticky = (want, n - 1) if n is not None and n > 1 else None
                     if n is None:
                         cur = want
@@ -236,6 +238,7 @@ class Scheduler:
                 tid, left = sticky
                 if tid in runnable:
                     choice = tid
+                    bounded = True
                     sticky = (tid, left - 1) if left > 1 else None
                 else:
                     sticky = None
@@ -245,7 +248,7 @@ class Scheduler:
                 else:
                     fgr = [t for t in runnable if self.threads[t].fg]
                     choice = fgr[0] if fgr else runnable[0]
-            if self.threads[choice].fg:
+            if self.threads[choice].fg and not bounded:
                 cur = choice
             self.decisions.append(choice)
             self.alternatives.append(tuple(runnable))
@@ -408,6 +411,9 @@ class SchedThread:
             self._st.thread.join(2.0 if timeout is None else timeout)
             return
         s.yield_point(st)
+        if timeout is not None and self._st.status != "done":
+            # virtual time: the target thread was busy / not scheduled for longer than the finite time-out
+            return
         while self._st.status != "done":
             s.yield_point(st, lambda: self._st.status == "done")
 
@@ -424,7 +430,7 @@ def shim(real=threading):
 
 # ---------------------------------------------------------------------- schedule enumeration
 class Outcome:
-    __slots__ = ("results", "status", "decisions", "alternatives", "verdict", "extra", "bg", "fg")
+    __slots__ = ("results", "status", "decisions", "alternatives", "verdict", "extra", "bg", "fg", "names")
 
 
 def run_one(make, files, funcs, schedule, max_decisions=4000, keep_trace=False):
@@ -439,6 +445,7 @@ def run_one(make, files, funcs, schedule, max_decisions=4000, keep_trace=False):
         results, status = s.run(sc.bodies, getattr(sc, "names", None), getattr(sc, "prologue", None))
         out = Outcome()
         out.fg = set(t.tid for t in s.threads if t.fg)
+        out.names = {t.tid: t.name for t in s.threads}
         out.results, out.status = results, status
         out.decisions, out.alternatives = s.decisions, s.alternatives
         out.bg = [(b.name, b.status) for b in s.threads if not b.fg]
@@ -453,7 +460,7 @@ def run_one(make, files, funcs, schedule, max_decisions=4000, keep_trace=False):
     return out
 
 
-def explore(make, files, funcs=None, max_preempt=1, bg_lens=(1, 4, 24), max_bg_preempt=1, max_decisions=4000, budget=None,
+def explore(make, files, funcs=None, max_preempt=1, bg_lens=(1, 4, 24), max_bg_preempt=1, unit_names=(), max_decisions=4000, budget=None,
             deadline=None, max_points=None):
     """enumerate all schedules with <= max_preempt pre-emptions; yields (schedule, Outcome)"""
     count = [0]
@@ -480,6 +487,8 @@ def explore(make, files, funcs=None, max_preempt=1, bg_lens=(1, 4, 24), max_bg_p
                 is_fg = t in out.fg
                 if not is_fg and sum(1 for p in prefix if p[1] not in out.fg) >= max_bg_preempt:
                     continue        # at most max_bg_preempt pre-emptions in favour of background threads
-                for ln in ((None,) if is_fg else bg_lens):
+                # threads named in unit_names (the environment: one file edit per decision) get exactly one decision
+                unit = out.names.get(t) in unit_names
+                for ln in ((1,) if unit else (None,) if is_fg else bg_lens):
                     yield from rec(prefix + [(k, t, ln)])
     yield from rec([])
